@@ -565,7 +565,7 @@ fn gen_packet(r: &mut Rng, later_key: Option<&str>) -> GPacket {
                 post.push_str(&format!("<rdf:Description rdf:about=\"\" {k}=\"later\"/>"));
             }
             Some(k) if kind == 'E' && !k.starts_with("xmlns") && r.chance(1, 2) => {
-                post.push_str(&format!("<{k}>tag form</{k}>"));
+                post.push_str(&format!("<{k}>{}</{k}>", r.pick(&["tag form", "a &amp; b", "<rdf:li>x</rdf:li>", " sp "])));
             }
             _ => post.push_str("<rdf:Description rdf:about='' photoshop:City=\"X\"/>"),
         }
@@ -958,6 +958,278 @@ fn op_ext(run: &mut Run, r: &mut Rng) {
 }
 
 // ---------------------------------------------------------------------------------------
+// text level: the model's reader/scanner (Model/C30Scan.lean) against the real code on raw text
+
+/// 0–3 small edits that break or bend the markup (char-boundary safe).
+fn mutate_text(r: &mut Rng, s: &str) -> String {
+    let mut cs: Vec<char> = s.chars().collect();
+    let n = r.below(4);
+    for _ in 0..n {
+        if cs.is_empty() {
+            break;
+        }
+        let pos = r.below(cs.len() as u64) as usize;
+        match r.below(5) {
+            0 => {
+                cs.remove(pos);
+            }
+            1 | 2 => {
+                let c = *r.pick(&['<', '>', '"', '\'', '&', ';', '/', '=', '?', '!', '-', ']', '[', ' ', '\n', 'x']);
+                cs.insert(pos, c);
+            }
+            3 => {
+                // drop a short slice
+                let len = (r.below(12) as usize).min(cs.len() - pos);
+                cs.drain(pos..pos + len);
+            }
+            _ => {
+                let c = *r.pick(&['<', '>', '"', '\'', '&', '/', ' ']);
+                cs[pos] = c;
+            }
+        }
+    }
+    cs.into_iter().collect()
+}
+
+/// `extract_xmp_key` on a raw text: grammar packets (key in the first element, in a later
+/// element, as a child element, absent), texts produced by `add_xmp_key`, and damaged ones.
+fn op_xt(run: &mut Run, r: &mut Rng) {
+    let key: String = match r.below(4) {
+        0 | 1 => K_PROV.to_string(),
+        2 => r.pick(&KEY_POOL).to_string(),
+        _ => format!("ns:{}", gen_word(r, 6)),
+    };
+    let p = gen_packet(r, Some(&key));
+    let mut text = p.text.clone();
+    let mut kind = "grammar";
+    if r.chance(1, 6) {
+        // the tag case (`read_text` up to the matching end tag) on hand-made shapes
+        let k = &key;
+        let forms = [
+            format!("<{k}>v &amp; w</{k}>"),
+            format!("<{k}/>x</{k}>"),
+            format!("<{k}>a<{k}>b</{k}>c</{k}>d</{k}>"),
+            format!("<{k}>a<{k}/>b</{k}>c</{k}>"),
+            format!("<{k}>a<b>x</{k}><{k}>second</{k}>"),
+            format!("<{k}>unterminated<b/>"),
+            format!("<{k} >sp</{k} >"),
+            format!("<{k}>a<![CDATA[ </{k}> ]]>b</{k}>"),
+            format!("<{k}>a<!-- </{k}> -->b<?p </{k}> ?></{k}>"),
+            format!("<{k} a='</{k}>'>x</{k}>"),
+            format!("<{k}>a & b</{k}>"),
+            format!("<{k}>a<b></{k}></b></{k}>"),
+            format!("</{k}><{k}>after stray end</{k}>"),
+            format!("<{k}>{} x </{k}>", '\u{feff}'),
+        ];
+        let lead = *r.pick(&["<a><rdf:Description x=\"1\"/>", "<a>", "\u{feff}<a><rdf:Description/>t&amp;t", "", "<?xml version=\"1.0\"?>\n<a><!---->"]);
+        text = format!("{lead}{}{}", r.pick(&forms), r.pick(&["</a>", "", "<rdf:Description/>"]));
+        kind = "tagcase";
+    } else if r.chance(1, 3) {
+        let (t, k, v) = (text.clone(), key.clone(), gen_value(r));
+        if let Ok(Ok(out)) = guarded(move || hk::add_xmp_key(&t, &k, &v)) {
+            text = out;
+            kind = "written";
+        }
+    }
+    if r.chance(2, 5) {
+        text = mutate_text(r, &text);
+        kind = "damaged";
+    }
+    if text.contains("<!D") || text.contains("<!d") {
+        run.count("xt_skipped_doctype");
+        return;
+    }
+    let req = format!("C30 xt s={} k={}", hex(text.as_bytes()), hex(key.as_bytes()));
+    let (t2, k2) = (text.clone(), key.clone());
+    match guarded(move || hk::extract_xmp_key(&t2, &k2)) {
+        Err(pn) => {
+            let idx = run.case(req, "panic".to_string());
+            run.fail(idx, "panic", pn);
+        }
+        Ok(x) => {
+            run.count(&format!("xt_{kind}_{}", if x.is_some() { "some" } else { "none" }));
+            if x.is_some() {
+                run.nontrivial(req.clone());
+            }
+            run.case(req, opt_out(&x));
+        }
+    }
+}
+
+/// one `xt` case on a text that comes from a real asset (value already extracted by the real code)
+fn xt_case(run: &mut Run, text: &str, key: &str, got: &Option<String>) {
+    if text.contains("<!D") || text.contains("<!d") {
+        run.count("xt_skipped_doctype");
+        return;
+    }
+    run.count(if got.is_some() { "xt_asset_some" } else { "xt_asset_none" });
+    run.case(format!("C30 xt s={} k={}", hex(text.as_bytes()), hex(key.as_bytes())), opt_out(got));
+}
+
+/// free rendering of a tag content (what follows the element name)
+fn render_tag_content(r: &mut Rng, attrs: &[SAttr]) -> String {
+    let mut s = String::new();
+    for a in attrs {
+        s.push_str(ws1(r));
+        s.push_str(&a.key);
+        s.push_str(*r.pick(&["=", "=", "=", " =", "= ", " = ", "\n=\t"]));
+        let q = if a.raw.contains('"') {
+            '\''
+        } else if a.raw.contains('\'') {
+            '"'
+        } else {
+            *r.pick(&['"', '"', '\''])
+        };
+        s.push(q);
+        s.push_str(&a.raw);
+        s.push(q);
+    }
+    s.push_str(ws(r));
+    s
+}
+
+fn gen_attr_list(r: &mut Rng) -> Vec<SAttr> {
+    let n = match r.below(12) {
+        0 => 0,
+        1 => r.range(30, 36) as usize,
+        _ => r.range(1, 6) as usize,
+    };
+    (0..n)
+        .map(|i| SAttr {
+            key: if n > 10 {
+                format!("n{}:p{}", i % 3, if r.chance(1, 40) { 0 } else { i })
+            } else if r.chance(1, 4) {
+                format!("ns:{}", gen_word(r, 4))
+            } else {
+                r.pick(&KEY_POOL).to_string()
+            },
+            raw: gen_raw(r),
+        })
+        .collect()
+}
+
+/// quick-xml's attribute iterator (XML mode, duplicate check on) over a tag content.
+fn op_sc(run: &mut Run, r: &mut Rng) {
+    let attrs = gen_attr_list(r);
+    let mut s = render_tag_content(r, &attrs);
+    let damaged = r.chance(1, 2);
+    if damaged {
+        s = mutate_text(r, &s);
+    }
+    // the tag content never contains an unquoted `>`; the iterator itself does not care
+    let req = format!("C30 sc s={}", hex(s.as_bytes()));
+    let s2 = s.clone();
+    let res = guarded(move || {
+        let mut out: Vec<String> = vec![];
+        for a in quick_xml::events::attributes::Attributes::new(&s2, 0).take(s2.len() + 2) {
+            out.push(match a {
+                Ok(a) => format!("o:{}:{}", hex(a.key.as_ref()), hex(a.value.as_ref())),
+                Err(_) => "e".to_string(),
+            });
+        }
+        out
+    });
+    match res {
+        Err(pn) => {
+            let idx = run.case(req, "panic".to_string());
+            run.fail(idx, "panic", pn);
+        }
+        Ok(out) => {
+            let any_err = out.iter().any(|x| x == "e");
+            run.count(if any_err { "sc_with_error" } else { "sc_all_ok" });
+            if !out.is_empty() {
+                run.nontrivial(req.clone());
+            }
+            let idx = run.case(req, if out.is_empty() { "-".to_string() } else { out.join(",") });
+            // oracle (undamaged only): the iterator yields exactly the attributes that were rendered,
+            // up to the first repeated key
+            if !damaged {
+                let mut want: Vec<String> = vec![];
+                let mut seen: Vec<&str> = vec![];
+                let mut dup = false;
+                for a in &attrs {
+                    if seen.contains(&a.key.as_str()) {
+                        dup = true;
+                        break;
+                    }
+                    seen.push(&a.key);
+                    want.push(format!("o:{}:{}", hex(a.key.as_bytes()), hex(a.raw.as_bytes())));
+                }
+                if !dup && out != want {
+                    run.fail(idx, "attribute-scan", format!("rendered {} attributes, iterator yields {:?}", attrs.len(), out));
+                }
+            }
+        }
+    }
+}
+
+/// The element reading of `add_xmp_key`: first event of a reader configured as there, on a
+/// text that starts with an rdf:Description tag (free layout, written form, damaged).
+fn op_sd(run: &mut Run, r: &mut Rng) {
+    let attrs = gen_attr_list(r);
+    let written = r.chance(1, 3);
+    let mut s = String::from(*r.pick(&["<rdf:Description", "<rdf:Description", "<rdf:Description", "<rdf:Descriptio", "<x"]));
+    if written {
+        // the writer's form: one blank, double quotes
+        for a in &attrs {
+            s.push_str(&format!(" {}=\"{}\"", a.key, a.raw.replace('"', "&quot;")));
+        }
+    } else {
+        s.push_str(&render_tag_content(r, &attrs));
+    }
+    s.push_str(*r.pick(&[">", ">", "/>", " />", ""]));
+    s.push_str(*r.pick(&["", "tail", "<a/>", " \n</rdf:Description>", "x>y\"z"]));
+    if r.chance(1, 3) {
+        s = mutate_text(r, &s);
+    }
+    let req = format!("C30 sd s={}", hex(s.as_bytes()));
+    let s2 = s.clone();
+    let res = guarded(move || {
+        let mut reader = quick_xml::Reader::from_str(&s2);
+        reader.config_mut().trim_text(false);
+        reader.config_mut().expand_empty_elements = false;
+        if !s2.starts_with('<') {
+            return "none".to_string();
+        }
+        let (e, empty) = match reader.read_event() {
+            Ok(quick_xml::events::Event::Start(e)) => (e, false),
+            Ok(quick_xml::events::Event::Empty(e)) => (e, true),
+            _ => return "none".to_string(),
+        };
+        if e.name().as_ref() != b"rdf:Description" {
+            return "none".to_string();
+        }
+        let mut at: Vec<String> = vec![];
+        for a in e.attributes() {
+            match a {
+                Ok(a) => at.push(format!("{}:{}", hex(a.key.as_ref()), hex(a.value.as_ref()))),
+                Err(_) => return "none".to_string(),
+            }
+        }
+        let rest = &s2[reader.buffer_position() as usize..];
+        format!(
+            "{} at={} rest={}",
+            if empty { "E" } else { "S" },
+            if at.is_empty() { "-".to_string() } else { at.join(",") },
+            hex(rest.as_bytes())
+        )
+    });
+    match res {
+        Err(pn) => {
+            let idx = run.case(req, "panic".to_string());
+            run.fail(idx, "panic", pn);
+        }
+        Ok(imp) => {
+            run.count(if imp == "none" { "sd_none" } else { "sd_some" });
+            if imp != "none" {
+                run.nontrivial(req.clone());
+            }
+            run.case(req, imp);
+        }
+    }
+}
+
+// ---------------------------------------------------------------------------------------
 // end to end
 
 fn crc32(data: &[u8]) -> u32 {
@@ -1087,7 +1359,15 @@ fn e2e_handler(run: &mut Run, format: &str, asset: &[u8], url: &str, what: &str)
                     if vb != va {
                         run.fail(idx, "e2e-attrs-not-preserved", format!("{format} ({what}): {k} was {vb:?}, now {va:?}"));
                     }
+                    // the text-level reader model on the real asset's XMP (before and after)
+                    xt_case(run, b, k, &vb);
+                    if let Some(a) = &after_txt {
+                        xt_case(run, a, k, &va);
+                    }
                 }
+            }
+            if let Some(a) = &after_txt {
+                xt_case(run, a, K_PROV, &got);
             }
             Some(out)
         }
@@ -1296,12 +1576,15 @@ pub fn run(run: &mut Run, rng: &mut Rng) {
     replay_witnesses(run);
     for _ in 0..n {
         let mut r = rng.fork();
-        match r.below(20) {
+        match r.below(28) {
             0 | 1 => op_esc(run, &mut r),
             2 | 3 => op_unesc(run, &mut r),
             4..=10 => op_add(run, &mut r),
             11..=15 => op_prov(run, &mut r),
-            _ => op_ext(run, &mut r),
+            16..=19 => op_ext(run, &mut r),
+            20..=23 => op_xt(run, &mut r),
+            24 | 25 => op_sc(run, &mut r),
+            _ => op_sd(run, &mut r),
         }
     }
     let mut r = rng.fork();
